@@ -53,6 +53,8 @@ def rand_desc(rng):
                 u["next"] = rng.choice([None, None, "true"])
                 if u.get("bytes_omitted"):
                     u["data"] = 0
+                if u["data"] == 0 and rng.random() < 0.3:
+                    u["next"] = 0    # an explicit 0 on a unit without payload: serialisable, and must stay 0
             else:
                 u["next"] = rng.choice([None, None, None, 0, 13, 1000])
             u["prev"] = rng.choice([None, None, None, 0, 13, 999])
